@@ -573,6 +573,25 @@ def w_powers(args):
     return ("powers", acc.result())
 
 
+def w_colon_names(args):
+    """Quoted names whose text looks like an interaction (`a:b`, `b:a`, `a:b:c`, `a:`) next to the
+    interactions of the same letters: every operator, both operand orders, nested once."""
+    (opts,) = args
+    acc = Acc()
+    a, b, c = E.name("a"), E.name("b"), E.name("c")
+    inter = [_b(":", a, b), _b(":", b, a), _b(":", _b(":", a, b), c), _b("*", a, b), _b("/", a, b), a]
+    quoted = [("atom", "qname", q) for q in ("`a:b`", "`b:a`", "`a:b:c`", "`a:`", "`:`", "`a`")]
+    for x in inter:
+        for q in quoted:
+            for op in ("+", "-", ":", "*", "/", "%in%"):
+                for l, r in ((x, q), (q, x)):
+                    t = _b(op, l if l[0] == "atom" or op in E.ADD_OPS else ("par", l), r if r[0] == "atom" else ("par", r))
+                    check_tree(acc, ("formula", None, (t,), False), opts)
+                    check_tree(acc, ("formula", (q,), (t,), False), opts)
+                    check_tree(acc, ("formula", None, (_b(":", ("par", t), c),), False), opts)
+    return ("colon-names", acc.result())
+
+
 def w_random(args):
     seed, count, minops, maxops, opts = args
     rng = random.Random(seed)
@@ -998,6 +1017,7 @@ DRIVERS = {
         exhaustive=True,
     ),
     "decorated-pairs": dict(rule="every ordered pair of decorations (as in decorated-trees) on base trees with <= 1 binary node, exponents 1..3, distinct strings only", exhaustive=True),
+    "colon-names": dict(rule="quoted names whose text contains ':' (`a:b`, `b:a`, `a:b:c`, `a:`, `:`) combined by every binary operator (both orders, also as lhs and nested in an interaction) with the interactions a:b, b:a, a:b:c, a*b, a/b: atomic factors, never identified with the interaction of their pieces", exhaustive=True),
     "powers": dict(rule="** and ^ with exponents 1..3 over 7 operand shapes, chains of two powers, excluded exponents (0, 2.5, a name)", exhaustive=True),
     "random-trees": dict(rule="seeded random trees with 4..8 binary nodes, unary runs, parentheses, special atoms", exhaustive=False),
     "sign-run-negative-space": dict(
@@ -1020,6 +1040,7 @@ def plan(ctx):
     opts_small = {"formula": True, "formula_both": True, "spaced": True}
     opts_big = {"formula": True, "formula_both": th, "spaced": th, "all_avails": th}
     tasks.append((w_powers, (opts_small,)))
+    tasks.append((w_colon_names, ({"formula": True, "formula_both": True, "spaced": False},)))
     for n in (0, 1):
         tasks.append((w_base, (n, (1, 2, 3), True, 0, 1, opts_small)))
     for sh in range(8):
@@ -1087,6 +1108,7 @@ def run_bounded(ctx):
         "decorated-trees": "base trees <= 2 nodes" + (" (+ 3 nodes: sign-run and parenthesis decorations, all-distinct labelling, runs <= 2)" if th else " (2 nodes: all-distinct, all-equal and first=last labellings)"),
         "decorated-pairs": "base trees <= 1 node; " + ("runs <= 2, every labelling" if th else "runs of length 1, all-equal labelling"),
         "powers": "see rule",
+        "colon-names": "6 interaction operands x 6 quoted names x 6 operators x 2 orders x 3 contexts",
         "random-trees": f"{100000 if th else 3200} trees, seed {ctx.seed}",
         "sign-run-negative-space": f"base trees <= 2 nodes, runs <= {3 if th else 2} (<= 3 for <= 1 node)",
         "feature-flags": "base trees <= 2 nodes" + ("" if th else " (2 nodes: three key labellings)"),
